@@ -28,7 +28,12 @@ func genMergeDict(r *Rng, k int) string {
 		if r.Intn(3) != 0 {
 			num = 10 + int(name[1]-'0') // usually consistent name/number
 		}
-		fmt.Fprintf(&sb, "VENDOR %s %d\nBEGIN-VENDOR %s\n", name, num, name)
+		format := ""
+		if r.Intn(3) == 0 {
+			// the same vendor may carry a format on either side, equal or not: Merge's statement does not look at it
+			format = r.PickS(" format=1,1", " format=1,1", " format=2,1", " format=1,0", " format=4,0")
+		}
+		fmt.Fprintf(&sb, "VENDOR %s %d%s\nBEGIN-VENDOR %s\n", name, num, format, name)
 		for j := 0; j < r.Intn(3); j++ {
 			oid := fmt.Sprint(1 + r.Intn(4))
 			if r.Intn(4) == 0 {
@@ -52,7 +57,7 @@ func dictSnapshot(d *dictionary.Dictionary) string {
 
 func init() {
 	props["C20"] = func(c *Ctx) {
-		c.Res.Rule = "pairs and left-folded chains (2..4) of well-formed dictionaries drawn from small name/number pools (overlapping and disjoint attributes, values, vendors; dotted attribute numbers where one is a proper prefix of another; same-name/different-number vendors; matched vendors with clashing and non-clashing attributes); each is parsed by the real parser and merged; result or refusal compared with the heap model; deep snapshots of every input before/after every Merge; the first input is merged a second time with another partner and the first result re-checked (capacity aliasing). non-trivial = chain with at least one matched vendor or a conflict"
+		c.Res.Rule = "pairs and left-folded chains (2..4) of well-formed dictionaries drawn from small name/number pools (overlapping and disjoint attributes, values, vendors; dotted attribute numbers where one is a proper prefix of another; same-name/different-number vendors; matched vendors with clashing and non-clashing attributes, with a format= on none, one or both sides, equal or different); each is parsed by the real parser and merged; result or refusal compared with the heap model; deep snapshots of every input before/after every Merge; the first input is merged a second time with another partner and the first result re-checked (capacity aliasing). non-trivial = chain with at least one matched vendor or a conflict"
 		r := c.Rng.Fork()
 		n := c.N(1500, 40000)
 		for i := 0; i < n; i++ {
